@@ -38,7 +38,7 @@ SetTop(F, fr) == [F EXCEPT ![Len(F)] = fr]
 (* ---------------- machine state helpers ------------------------------------------------------ *)
 Ev(M, e) == [M EXCEPT !.evs = Append(@, e)]
 TkRec == [st |-> "absent", reg |-> FALSE, by |-> 0, pc |-> 0, lastv |-> Val("N", 0, <<>>), deps |-> <<>>,
-          dsched |-> FALSE, cact |-> FALSE, ctxs |-> <<>>, gen |-> "new", recvs |-> <<>>, dcb |-> FALSE]
+          dsched |-> FALSE, cact |-> FALSE, ctxs |-> <<>>, gen |-> "new", recvs |-> <<>>, dcb |-> FALSE, ys |-> EmptyFn]
 
 InitM(Pg) ==
   [ tk |-> [t \in 1..Len(Pg.tasks) |-> TkRec],
@@ -180,16 +180,19 @@ FlushBatch(M, b, by) ==
   IN Ev(M5, [e |-> "BatchDone", b |-> b, a |-> IF raised THEN 1 ELSE 0])
 
 (* ---------------- building a yielded structure (harness Run.build, left to right) ------------- *)
-RECURSIVE Build(_, _, _, _, _)
-Build(M, t, k, s, p) ==       \* -> [M, s (resolved), p (last leaf position used)]
+RECURSIVE Build(_, _, _, _, _, _)
+Build(M, t, k, s, p, tab) ==  \* -> [M, s (resolved), p (last leaf position used)]; tab = StaticLeaves of the whole structure
   IF IsContainer(s) THEN
      LET RECURSIVE Go(_, _, _, _)
          Go(MM, i, acc, pp) == IF i > Len(s.xs) THEN [M |-> MM, s |-> Val(s.g, 0, acc), p |-> pp]
-                               ELSE LET r == Build(MM, t, k, s.xs[i], pp) IN Go(r.M, i + 1, Append(acc, r.s), r.p)
+                               ELSE LET r == Build(MM, t, k, s.xs[i], pp, tab) IN Go(r.M, i + 1, Append(acc, r.s), r.p)
      IN Go(M, 1, <<>>, p)
   ELSE LET fid == Fid(t, k, p + 1) IN
     CASE s.g = "N"   -> [M |-> M, s |-> Val("N", 0, <<>>), p |-> p + 1]
       [] s.g = "Bad" -> [M |-> M, s |-> Val("Bad", 0, <<>>), p |-> p + 1]
+      [] s.g = "Rep" ->      \* the same object as an earlier leaf of this structure: nothing is created
+           LET e == tab[p + 1] IN
+           [M |-> M, s |-> IF e.g \in {"N", "Bad"} THEN Val(e.g, 0, <<>>) ELSE Val("F", e.f, <<>>), p |-> p + 1]
       [] s.g = "T"   -> [M |-> IF M.tk[s.n].st = "absent" THEN CreateTask(M, s.n, t, TRUE) ELSE M,
                          s |-> Val("F", s.n, <<>>), p |-> p + 1]
       [] s.g = "D"   ->      \* DeduplicateDecorator.asynq for call site s.n
@@ -311,10 +314,12 @@ RunOps(M, F, t, k, i) ==
 RunTerm(M, F, t, k) ==
   LET tm == P.tasks[t].segs[k].term IN
   CASE tm.k = "yield" ->
-         LET r == Build(M, t, k, tm.s, 0)
+         LET r == IF tm.reuse # 0 THEN [M |-> M, s |-> M.tk[t].ys[tm.reuse]]           \* the object yielded before, again
+                  ELSE Build(M, t, k, tm.s, 0, StaticLeaves(t, k, tm.s))
              M1 == SegEndEv(r.M, t, k, 1, r.s)
              deps == ExtractOrder(r.s)
-             M2 == [M1 EXCEPT !.tk[t].lastv = r.s, !.tk[t].deps = deps, !.tk[t].pc = k, !.tk[t].gen = "open"]
+             M2 == [M1 EXCEPT !.tk[t].lastv = r.s, !.tk[t].deps = deps, !.tk[t].pc = k, !.tk[t].gen = "open",
+                              !.tk[t].ys = Upd(@, k, r.s)]
          IN IF deps = <<>> THEN Continue(M2, F, t) ELSE Epilogue(M2, F, t)
     [] tm.k = "return" -> BodyReturn(SegEndEv(M, t, k, 2, Val("N", 0, <<>>)), F, t, tm.ret)
     [] tm.k = "result" -> BodyReturn(SegEndEv(M, t, k, 3, Val("N", 0, <<>>)), F, t, 0)
